@@ -202,7 +202,11 @@ func (rt *runtime) cmplEvaluateNodeCallExpression(node *nodeCallExpression, with
 		case *propertyReference:
 			name = rf.name
 			this = objectValue(rf.base)
-			eval = rf.name == "eval" // Possible direct eval
+			// 15.1.2.1.1: only a call through the identifier eval (which resolves
+			// to a property of the global or a with object) can be a direct call;
+			// o.eval(...) and this.eval(...) are indirect.
+			_, identifier := node.callee.(*nodeIdentifier)
+			eval = identifier && rf.name == "eval"
 		case *stashReference:
 			// TODO ImplicitThisValue
 			name = rf.name
